@@ -170,9 +170,9 @@ pub fn plan_for(prop: &str, tier: &str) -> Plan {
         }
         "C20" => {
             p.scenarios = if q {
-                sc(&[("elect", 1), ("fig8-div", 1), ("crash2", 1), ("over", 0), ("crash2-split", 2), ("member-jd", 0), ("member-fresh", 1), ("elect-pvcq-dead1-minx", 0), ("elect-cq-dead1-minx", 0), ("read-regain", 0), ("read-regain", 1), ("snap-jauto", 0), ("crash2-page-adv", 3), ("member-fresh-api", 1), ("member-rm1-camp", 0), ("crash2-unpmax", 1), ("crash2-unpmax", 2), ("read-samectx", 0), ("read-samectx", 1), ("elect-pv-prio", 1), ("elect-nprio", 1), ("elect-api", 1), ("snap-api", 0), ("xfer-api", 0), ("member-joint-api", 1), ("read-rm1-api", 2), ("crash2-split-api", 2), ("crash2-async", 1), ("member-joint", 1), ("lease", 1), ("snap", 0), ("snap-lazy", 0), ("snap-lag", 0), ("repl-compact-memq", 0), ("repl-compact", 0), ("xfer-lag-cc", 0), ("xfer", 0), ("repl-i1-sz", 1), ("repl-mix", 0), ("read", 1), ("flow", 0), ("flow-cap", 0), ("stale", 0), ("member-rm1", 0), ("member-rm1-2v", 0), ("xfer-abort", 0), ("member", 0), ("xfer-pipe", 0), ("crash2-async-loose", 1), ("stale-async", 0), ("stale-lazy", 0), ("snap-req", 0)])
+                sc(&[("elect", 1), ("fig8-div", 1), ("crash2", 1), ("over", 0), ("crash2-split", 2), ("member-jd", 0), ("member-fresh", 1), ("elect-pvcq-dead1-minx", 0), ("elect-cq-dead1-minx", 0), ("read-regain", 0), ("read-regain", 1), ("snap-jauto", 0), ("crash2-page-adv", 3), ("member-fresh-api", 1), ("member-rm1-camp", 0), ("crash2-unpmax", 1), ("crash2-unpmax", 2), ("read-samectx", 0), ("read-samectx", 1), ("elect-pv-prio", 1), ("elect-nprio", 1), ("snap-selfelect", 0), ("elect-api", 1), ("snap-api", 0), ("xfer-api", 0), ("member-joint-api", 1), ("read-rm1-api", 2), ("crash2-split-api", 2), ("crash2-async", 1), ("member-joint", 1), ("lease", 1), ("snap", 0), ("snap-lazy", 0), ("snap-lag", 0), ("repl-compact-memq", 0), ("repl-compact", 0), ("xfer-lag-cc", 0), ("xfer", 0), ("repl-i1-sz", 1), ("repl-mix", 0), ("read", 1), ("flow", 0), ("flow-cap", 0), ("stale", 0), ("member-rm1", 0), ("member-rm1-2v", 0), ("xfer-abort", 0), ("member", 0), ("xfer-pipe", 0), ("crash2-async-loose", 1), ("stale-async", 0), ("stale-lazy", 0), ("snap-req", 0)])
             } else {
-                sc(&[("elect", 1), ("fig8-div", 1), ("crash2", 1), ("over", 0), ("crash2-split", 2), ("member-jd", 0), ("member-fresh", 1), ("elect-pvcq-dead1-minx", 0), ("elect-cq-dead1-minx", 0), ("read-regain", 0), ("read-regain", 1), ("snap-jauto", 0), ("crash2-page-adv", 3), ("member-fresh-api", 1), ("member-rm1-camp", 0), ("crash2-unpmax", 1), ("crash2-unpmax", 2), ("read-samectx", 0), ("read-samectx", 1), ("elect-pv-prio", 1), ("elect-nprio", 1), ("elect-api", 1), ("snap-api", 0), ("xfer-api", 0), ("member-joint-api", 1), ("read-rm1-api", 2), ("crash2-split-api", 2), ("crash2-async", 1), ("member-joint", 1), ("lease", 1), ("snap", 0), ("snap-lazy", 0), ("snap-lag", 0), ("repl-compact-memq", 0), ("repl-compact", 0), ("xfer-lag-cc", 0), ("xfer", 0), ("repl-i1-sz", 1), ("repl-mix", 0), ("read", 1), ("flow", 0), ("flow-cap", 0), ("stale", 0), ("member-rm1", 0), ("member-rm1-2v", 0), ("xfer-abort", 0), ("member", 0), ("xfer-pipe", 0), ("crash2-async-loose", 1), ("stale-async", 0), ("stale-lazy", 0), ("snap-req", 0), ("member-rm1-lazy", 1), ("member-rm1-async", 1), ("read-lease", 1), ("read-nofwd", 1), ("repl-fetch", 1), ("repl-gc", 1), ("elect-prio", 1), ("member-mix", 1), ("crash3", 1), ("repl-batch", 1), ("snap", 1), ("stale-lazy", 1), ("stale-async", 1), ("member", 1), ("crash3-lazy", 1), ("crash2-async-loose", 2), ("crash3-async", 1), ("over", 1), ("over-two", 0), ("over-loose", 0), ("fig8", 1), ("xfer", 1), ("flow", 1), ("member-jd", 1), ("elect-pv", 2), ("snap-lazy-unp", 1), ("member-rm1-api", 0), ("stale-api", 0), ("member-rm1-2v-api", 0), ("snap-req-api", 0), ("repl-compact-memq", 1), ("repl-compact", 1), ("snap-memq", 2), ("snap-fig8-memq", 1)])
+                sc(&[("elect", 1), ("fig8-div", 1), ("crash2", 1), ("over", 0), ("crash2-split", 2), ("member-jd", 0), ("member-fresh", 1), ("elect-pvcq-dead1-minx", 0), ("elect-cq-dead1-minx", 0), ("read-regain", 0), ("read-regain", 1), ("snap-jauto", 0), ("crash2-page-adv", 3), ("member-fresh-api", 1), ("member-rm1-camp", 0), ("crash2-unpmax", 1), ("crash2-unpmax", 2), ("read-samectx", 0), ("read-samectx", 1), ("elect-pv-prio", 1), ("elect-nprio", 1), ("snap-selfelect", 0), ("elect-api", 1), ("snap-api", 0), ("xfer-api", 0), ("member-joint-api", 1), ("read-rm1-api", 2), ("crash2-split-api", 2), ("crash2-async", 1), ("member-joint", 1), ("lease", 1), ("snap", 0), ("snap-lazy", 0), ("snap-lag", 0), ("repl-compact-memq", 0), ("repl-compact", 0), ("xfer-lag-cc", 0), ("xfer", 0), ("repl-i1-sz", 1), ("repl-mix", 0), ("read", 1), ("flow", 0), ("flow-cap", 0), ("stale", 0), ("member-rm1", 0), ("member-rm1-2v", 0), ("xfer-abort", 0), ("member", 0), ("xfer-pipe", 0), ("crash2-async-loose", 1), ("stale-async", 0), ("stale-lazy", 0), ("snap-req", 0), ("member-rm1-lazy", 1), ("member-rm1-async", 1), ("read-lease", 1), ("read-nofwd", 1), ("repl-fetch", 1), ("repl-gc", 1), ("elect-prio", 1), ("member-mix", 1), ("crash3", 1), ("repl-batch", 1), ("snap", 1), ("stale-lazy", 1), ("stale-async", 1), ("member", 1), ("crash3-lazy", 1), ("crash2-async-loose", 2), ("crash3-async", 1), ("over", 1), ("over-two", 0), ("over-loose", 0), ("fig8", 1), ("xfer", 1), ("flow", 1), ("member-jd", 1), ("elect-pv", 2), ("snap-lazy-unp", 1), ("member-rm1-api", 0), ("stale-api", 0), ("member-rm1-2v-api", 0), ("snap-req-api", 0), ("repl-compact-memq", 1), ("repl-compact", 1), ("snap-memq", 2), ("snap-fig8-memq", 1)])
             };
             p.required_stats = vec![Stat::BadMsgOffered, Stat::ReadyChecked, Stat::MsgsReleased, Stat::ApiProbes];
             p.explanation = "every API call of every explored execution runs under catch_unwind: a panic, failed assert!/debug_assert!, fatal!, index out of bounds or arithmetic overflow (debug-assertions and overflow-checks are on) is a violation; in every state local-only message types and responses from non-members are offered to step() on a clone and must be rejected with the documented error without changing the state digest; in the -api scenarios every public RawNode entry point (read_index, request_snapshot, ping, campaign, transfer_leader / report_unreachable / report_snapshot with member, own and unknown ids, propose, propose_conf_change) is offered to a clone of every node in every state and must not panic".into();
